@@ -184,8 +184,7 @@ Print Assumptions C06_bind3_partial.
    Proved part: deciphering with a PAN whose PAN field differs yields
    decode_pin_field_iso_4 of a 16-byte block that is NOT the original PIN field.  That this
    other block does not by coincidence decode to the same PIN depends on the cipher
-   (for AES it would be a 2^-70-ish event, not a theorem about permutations), so it is
-   not claimed.  Note that the premise must be on the PAN fields, not on the PANs:
+   (there are keyed permutations for which it does), so it is not claimed.  Note that the premise must be on the PAN fields, not on the PANs:
    "123" and "0123" have the same PAN field. *)
 Theorem C06_bind4_partial : forall ca, cipher_ok ca -> bs ca = 16%nat ->
   forall key pin pan pan' tape8 pin_field pan_field pan_field' blk,
